@@ -8,6 +8,7 @@
 //!   linecol <pos> <hex>
 //!   context <check 0|1> <hexdir> <hexyaml>
 //!   unicode
+//!   docregex <hexpattern> <hex>   (the regex crate itself on the documented pattern; code-point indices)
 //! stdout: one answer line per command (same leading word), `PANIC` when the
 //! implementation panicked.
 
@@ -92,6 +93,26 @@ fn handle(line: &str) -> String
                 ));
             }
             out
+        },
+        "docregex" =>
+        {
+            let pat = unhex(f[1]).expect("hex");
+            let s = unhex(f[2]).expect("hex");
+            let re = regex::Regex::new(&pat).expect("pattern");
+            let cp = |off: usize| s[..off].chars().count();
+            match re.captures(&s)
+            {
+                None => "docregex none".to_string(),
+                Some(c) =>
+                {
+                    let g0 = c.get(0).unwrap();
+                    match c.get(1)
+                    {
+                        Some(g1) => format!("docregex {} {} {} {}", cp(g0.start()), cp(g0.end()), cp(g1.start()), cp(g1.end())),
+                        None => format!("docregex {} {} - -", cp(g0.start()), cp(g0.end())),
+                    }
+                },
+            }
         },
         "extract" =>
         {
